@@ -1,6 +1,9 @@
 //! Harness binary for the unmodified (`real`) build of tiny-http.
 
+mod interp;
+mod props_sock;
 mod pure;
+mod sock;
 
 use vcore::cli::{drive, Cli};
 use vcore::resp;
@@ -34,10 +37,15 @@ fn main() {
                 vec!["the surviving Content-Type may stand at the place of the first or of the last one supplied", "auto Date must be within 2 s of the wall clock read before/after raw_print"],
             )
         }
-        other => {
-            eprintln!("vreal: no parts for property {}", other);
-            std::process::exit(3)
-        }
+        other => match props_sock::parts(&cli) {
+            Some((p, rule, assumptions)) => {
+                drive(&cli, p, rule, &assumptions);
+            }
+            None => {
+                eprintln!("vreal: no parts for property {}", other);
+                std::process::exit(3)
+            }
+        },
     };
     drive(&cli, parts, rule, &assumptions)
 }
